@@ -48,7 +48,7 @@ def check_property(prop, tier, units, run_unit, keep=False, jobs=8):
         violations, undecided, kf_lines = [], [], []
         kf_hits = {}
         obl_rows = []
-        n_obl = n_dis = n_b = n_bd = 0
+        n_obl = n_dis = n_b = n_bd = n_kf = 0
         functions, assumptions, cmds, engines, samples = [], [], [], set(), []
         solver_s = 0.0
         rep_dir = VERIF / "replays" / prop
@@ -105,6 +105,11 @@ def check_property(prop, tier, units, run_unit, keep=False, jobs=8):
                     if kf:
                         kf_hits.setdefault(kf["id"], []).append(o.oid)
                         row["status"] = "known-finding"; row["finding"] = kf["id"]
+                        n_kf += 1
+                        if o.bounded:
+                            n_b -= 1
+                        else:
+                            n_obl -= 1
                     else:
                         violations.append((o, res))
                 else:
@@ -150,6 +155,7 @@ def check_property(prop, tier, units, run_unit, keep=False, jobs=8):
             "coverage": {
                 "obligations": n_obl, "discharged": n_dis,
                 "bounded_obligations": n_b, "bounded_discharged": n_bd,
+                "known_finding_obligations": n_kf,
                 "checker_cmd": " ; ".join(sorted(set(cmds)))[:2000] or "n/a",
                 "trusted_base": trusted + assumptions,
                 "functions_under_contract": functions,
